@@ -85,3 +85,90 @@ package commands
 //@     before call storage.ChangelogBackend.ReadChanges args _, _, st, f, o : assert decoded && st == req.GetStoreId() && f.ObjectType == req.GetType() && (tokenStr != "" ==> desCalled && desErr == nil && desType == req.GetType() && o.Pagination.From == desUlid)
 //@     after call storage.ChangelogBackend.ReadChanges returning c, u, e : contUlid = u
 //@     before call encoder.ContinuationTokenSerializer.Serialize args _, u, t : assert u == contUlid && t == req.GetType()
+
+// ------------------------------------------------------------------ BatchCheck (C07)
+// The de-duplication key of an item is the Check sub-problem key of exactly its store, tuple (object, relation, user)
+// and the invariant key of (store, model, the item's context, the item's contextual tuples): items that differ in any
+// of those inputs get the keys CheckCacheKey / InvariantCacheKey give to different inputs (their injectivity is C24).
+//@ func generateCacheKeyFromCheck(check, storeID, authModelID) (key)
+//@   property C07 C24
+//@   option nosafety
+//@   ensures @invInputs invCalled && invOK
+//@   ensures @keyInputs keyCalled && keyOK
+//@   ensures @result key == built
+//@   monitor keyInputs
+//@     ghost invCalled = false
+//@     ghost invOK = false
+//@     ghost invKey int = 0
+//@     ghost keyCalled = false
+//@     ghost keyOK = false
+//@     ghost built S_keys.Key = built
+//@     after call storage.InvariantCacheKey args s, m, c, tks returning k : invCalled = true ; invKey = k ; invOK = s == storeID && m == authModelID && c == old(check.GetContext()) && tks == old(check.GetContextualTuples().GetTupleKeys())
+//@     after call storage.CheckCacheKey args s, o, r, u, inv returning k : keyCalled = true ; built = k ; keyOK = s == storeID && o == old(check.GetTupleKey().GetObject()) && r == old(check.GetTupleKey().GetRelation()) && u == old(check.GetTupleKey().GetUser()) && inv == invKey
+
+// "Every correlation ID receives exactly one outcome": a batch is processed only if every item has a non-empty
+// correlation id and no id occurs twice (whatever the items' other fields are).
+//@ func validateCorrelationIDs(checks) (err)
+//@   property C07
+//@   option nosafety
+//@   loop 0 invariant forall j int :: 0 <= j && j <= $idx ==> checks[j].GetCorrelationId() != "" && inDom(seen, checks[j].GetCorrelationId())
+//@   loop 0 invariant forall s string :: inDom(seen, s) ==> (exists j int :: 0 <= j && j <= $idx && checks[j].GetCorrelationId() == s)
+//@   loop 0 invariant forall j int, k int :: 0 <= j && j < k && k <= $idx ==> checks[j].GetCorrelationId() != checks[k].GetCorrelationId()
+//@   ensures @nonEmpty err == nil ==> forall j int :: 0 <= j && j < len(checks) ==> checks[j].GetCorrelationId() != ""
+//@   ensures @distinct err == nil ==> forall j int, k int :: 0 <= j && j < k && k < len(checks) ==> checks[j].GetCorrelationId() != checks[k].GetCorrelationId()
+
+// no item is evaluated, and no key is built, unless the whole request passed the size limits and the correlation-id
+// validation of exactly this request's items; each item's key is built from this request's store and model
+//@ func (*BatchCheckQuery).Execute(bq, ctx, params) (res, meta, err)
+//@   property C07
+//@   option nosafety
+//@   option stable params
+//@   ensures @limits err == nil ==> len(old(params.Checks)) >= 1 && len(old(params.Checks)) <= old(bq.maxChecksAllowed)
+//@   ensures @validated err == nil ==> validated
+//@   monitor validateFirst
+//@     ghost validated = false
+//@     after call commands.validateCorrelationIDs args cs returning e : validated = e == nil && cs == params.Checks
+//@     before call commands.generateCacheKeyFromCheck args c, s, m : assert validated && s == params.StoreID && m == params.AuthorizationModelID
+//@     before call concurrency.NewPool : assert validated
+
+// each de-duplicated item is evaluated as the standalone Check of exactly its tuple, contextual tuples and context in
+// this request's store with this request's consistency, and the outcome recorded under its key is that Check's
+//@ func (*BatchCheckQuery).Execute$1(ctx) (err)
+//@   property C07
+//@   option nosafety
+//@   monitor standalone
+//@     ghost executed = false
+//@     ghost cres *commands.CheckResult = nil
+//@     ghost cerr error = nil
+//@     before call commands.Checker.Execute args _, _, p : assert p != nil && p.StoreID == deref(params).StoreID && p.TupleKey == deref(check).GetTupleKey() && p.ContextualTuples == deref(check).GetContextualTuples() && p.Context == deref(check).GetContext() && p.Consistency == deref(params).Consistency
+//@     after call commands.Checker.Execute returning r, e : executed = true ; cres = r ; cerr = e
+//@     before call (*sync.Map).Store args _, k, v : assert typeIs(k, "keys.Key") && as(k, "keys.Key") == deref(key) && typeIs(v, "*commands.BatchCheckOutcome") && (executed ==> as(v, "*commands.BatchCheckOutcome").Err == cerr && (cres != nil ==> as(v, "*commands.BatchCheckOutcome").Allowed == cres.Allowed))
+
+// ------------------------------------------------------------------ Assertions (C31)
+// what is persisted is exactly the request's assertion list under exactly the request's store and model, and only
+// after every assertion (and contextual tuple) passed validation against that model
+//@ func (*WriteAssertionsCommand).Execute(w, ctx, req) (res, err)
+//@   property C31
+//@   option nosafety
+//@   option stable req
+//@   ensures @persisted res != nil ==> written && writeErr == nil && err == nil
+//@   monitor verbatim
+//@     ghost written = false
+//@     ghost writeErr error = nil
+//@     ghost modelRead = false
+//@     before call storage.OpenFGADatastore.ReadAuthorizationModel args _, _, st, m : assert st == req.GetStoreId() && m == req.GetAuthorizationModelId()
+//@     after call storage.OpenFGADatastore.ReadAuthorizationModel returning m, e : modelRead = e == nil
+//@     before call storage.OpenFGADatastore.WriteAssertions args _, _, st, m, as : assert modelRead && st == req.GetStoreId() && m == req.GetAuthorizationModelId() && as == req.GetAssertions()
+//@     after call storage.OpenFGADatastore.WriteAssertions returning e : written = true ; writeErr = e
+
+//@ func (*ReadAssertionsQuery).Execute(q, ctx, store, authorizationModelID) (res, err)
+//@   property C31
+//@   option nosafety
+//@   ensures @verbatim res != nil ==> err == nil && read && readErr == nil && res.Assertions == got && res.AuthorizationModelId == authorizationModelID
+//@   ensures @failClosed read && readErr != nil ==> res == nil
+//@   monitor verbatim
+//@     ghost read = false
+//@     ghost readErr error = nil
+//@     ghost got []*openfgav1.Assertion = got
+//@     before call storage.AssertionsBackend.ReadAssertions args _, _, st, m : assert st == store && m == authorizationModelID
+//@     after call storage.AssertionsBackend.ReadAssertions returning a, e : read = true ; readErr = e ; got = a
